@@ -167,3 +167,56 @@ Example C02_align_nonvacuous :
   32 mod al (st_al (storage_of (FInplaceVector false) (Elem 32 5) 3)) = 0 /\
   access_slot (storage_of (FInplaceVector false) (Elem 32 5) 3) (Elem 32 5) 32 2 = Aligned 96.
 Proof. vm_compute. repeat split; try reflexivity; try discriminate; try lia. Qed.
+
+(* ---- span sub-views and the exception path of the uninitialized_* algorithms (coq/C02/ModelSub.v) ---- *)
+From Tetl Require C02.ModelSub C02.ProofsSub.
+
+(* subspan<Offset, Count>(), first<Count>(), last<Count>() and their run-time forms, on a parent span<T, n> (static) or
+   span<T> of size n (dynamic) at ANY address, for EVERY Offset / Count of the documented domain, with and without contract
+   checks: the call returns (no precondition fires: not that of span(It, count) either), the result views exactly the
+   elements [span.sub] names, all of them elements of the parent (outside = 0), and the extent of its type is
+   dynamic_extent or equals its size() (a static-extent span ignores the size it is constructed with). *)
+Theorem C02_span_subviews_inside_parent : forall k static base n off cnt checks,
+  ModelSub.sub_dom k n off cnt ->
+  exists r, ModelSub.sub_run checks k (ModelSub.parent static base n) off cnt = Ok r /\
+    ModelSub.sub_obs (ModelSub.parent static base n) r = ModelSub.sub_spec k static n off cnt /\
+    ModelSub.s_data (ModelSub.parent static base n) <= ModelSub.s_data r /\
+    ModelSub.s_data r + ModelSub.size r <= ModelSub.s_data (ModelSub.parent static base n) + ModelSub.size (ModelSub.parent static base n) /\
+    0 <= ModelSub.size r /\
+    (ModelSub.s_ext r = ModelSub.dyn \/ ModelSub.s_ext r = ModelSub.size r) /\
+    ModelSub.outside (ModelSub.parent static base n) r = 0.
+Proof. exact ProofsSub.sub_run_good. Qed.
+Print Assumptions C02_span_subviews_inside_parent.
+
+(* The model does not have this by construction: with detail::subspan_extent lacking its branch for a static parent extent,
+   subspan<Offset>() (Offset > 0) of EVERY static-extent span stops at the span(It, count) precondition when the checks are
+   compiled in, and otherwise has size() n at data() + Offset: Offset elements behind the parent. *)
+Theorem C02_subspan_extent_without_static_branch_refuted : forall base n off, 0 < off <= n ->
+  ModelSub.subspan_gen ModelSub.subspan_extent_no_static_branch true (ModelSub.parent true base n) off ModelSub.dyn = Contract /\
+  exists r, ModelSub.subspan_gen ModelSub.subspan_extent_no_static_branch false (ModelSub.parent true base n) off ModelSub.dyn = Ok r /\
+            ModelSub.size r = n /\ ModelSub.s_data r = base + off /\ ModelSub.outside (ModelSub.parent true base n) r = off.
+Proof. exact ProofsSub.no_static_branch_escapes. Qed.
+Print Assumptions C02_subspan_extent_without_static_branch_refuted.
+
+(* uninitialized_copy / uninitialized_move / uninitialized_fill over n destination slots when the construction of slot t
+   throws (t >= n: none does): the events are those of the specification (slots 0..t-1 constructed in order, then exactly
+   those destroyed), every constructor runs on raw storage and every destructor on a live object, and afterwards all n slots
+   hold an object (no throw) or none does (throw).  For every n and t. *)
+Theorem C02_uninitialized_exception_path_safe : forall n t,
+  ModelSub.uninit_run n t = ModelSub.uninit_spec n t /\
+  ModelSub.replay (fst (fst (ModelSub.uninit_run n t))) (repeat false n) = Ok (repeat (negb (Nat.ltb t n)) n).
+Proof. intros n t. split; [exact (ProofsSub.uninit_run_spec n t)|exact (ProofsSub.uninit_run_safe n t)]. Qed.
+Print Assumptions C02_uninitialized_exception_path_safe.
+
+(* Not by construction: with the destination advanced inside the construct call (`addressof( *current++)`) the catch block
+   runs the destructor on the slot whose constructor threw, for every n and every throwing slot. *)
+Theorem C02_uninitialized_advance_inside_refuted : forall n t, (t < n)%nat ->
+  ModelSub.replay (fst (fst (ModelSub.uninit_gen true n t))) (repeat false n) = UB UninitRead.
+Proof. exact ProofsSub.advance_inside_destroys_dead_slot. Qed.
+Print Assumptions C02_uninitialized_advance_inside_refuted.
+
+Example C02_sub_nonvacuous :
+  ModelSub.sub_dom ModelSub.KSub 4 2 ModelSub.dyn /\
+  ModelSub.sub_run true ModelSub.KSub (ModelSub.parent true 10 4) 2 ModelSub.dyn = Ok (ModelSub.Build_span 12 2 2) /\
+  ModelSub.uninit_run 3 1 = ([ModelSub.Construct 0; ModelSub.Throw 1; ModelSub.Destroy 0], true, 1%nat).
+Proof. unfold ModelSub.sub_dom, ModelSub.dyn. repeat split; try reflexivity; try lia. Qed.
